@@ -7,8 +7,9 @@
    atomic actions, every handler behaviour, every drain size and I/O outcome.  The Go scheduler
    and memory model, the kernel's sendmmsg/recvmmsg, Go memory aliasing and the DoH/DoQ library
    internals are outside (props/C10/NOTES.md). *)
-From Sdns Require Import Common.Base Gen.C10 C10.Model C10.ModelStream C10.ModelShare
-  C10.Proofs_UdpBase C10.Proofs_UdpInv C10.Proofs_UdpThm C10.Proofs_Stream C10.Proofs_Read C10.Proofs_Share C10.Proofs_Top.
+From Sdns Require Import Common.Base Gen.C10 C10.Model C10.ModelStream C10.ModelShare C10.ModelPool
+  C10.Proofs_UdpBase C10.Proofs_UdpInv C10.Proofs_UdpThm C10.Proofs_Stream C10.Proofs_Read C10.Proofs_Share C10.Proofs_Top
+  C10.Proofs_Pool.
 Open Scope nat_scope.
 
 (* ties: the constants the proofs compute with are the source's *)
@@ -143,6 +144,50 @@ Theorem shared_lookup_isolated : forall res ids shared sched,
 Proof. exact shared_isolated. Qed.
 Print Assumptions shared_lookup_isolated.
 
+(* pooled_stream_forgets: the framing stream is pooled across connections.  Whatever the previous
+   connection left in it — replies still staged after a failed write, a sticky write error —
+   tcpStream.reset makes the next connection start exactly as on a brand-new stream (what reset
+   assigns to `held` is read from the source: Gen.C10.reset_held) ... *)
+Theorem pooled_stream_forgets : forall st script arms, s_reset st script arms = s_init script arms.
+Proof. exact reset_forgets. Qed.
+Print Assumptions pooled_stream_forgets.
+
+(* ... so, for every sequence of connections served one after the other on one pooled stream,
+   with any I/O outcomes, what a connection's client receives is what it would have received
+   from a fresh stream: it does not depend on any connection served before it *)
+Theorem pooled_stream_isolated : forall D F l prev,
+  conn_seq D F prev l =
+  map (fun c => rev (k_out (t_conn (conn_serve D F (s_init [] [])
+         (mkConnio false (ci_input c) (ci_reads c) (ci_scripts c) (ci_budgets c) (ci_arms c)))))) l.
+Proof. exact conn_seq_independent. Qed.
+Print Assumptions pooled_stream_isolated.
+
+(* shared_lookup_private: the message groupLookup returns is edited in place upstack.  Under
+   every interleaving of the waiters' copy / set-ID steps with the edits their callers make
+   after the return: the flight's result is never modified while it is shared; a returned
+   waiter's message is the result's content under its own id followed by what THAT waiter's
+   caller appended (own_edits) — nothing another waiter did ever shows in it; no two waiters
+   hold the same message *)
+Theorem shared_lookup_private : forall res ids shared sched,
+  (2 <= length ids -> shared = true) ->
+  let s := l_run2 0 shared (l_init res ids) sched in
+  (shared = true -> nth_error (l_heap s) 0 = Some res) /\
+  (forall i id p, nth_error (l_waiters s) i = Some (id, G2 p) ->
+     nth_error (l_heap s) p = Some (mkMsg id (m_body res ++ own_edits 0 shared (l_init res ids) sched i))) /\
+  (forall i j wi wj p, i <> j -> nth_error (l_waiters s) i = Some wi -> nth_error (l_waiters s) j = Some wj ->
+     ptr_of wi = Some p -> ptr_of wj = Some p -> False).
+Proof. exact shared_private_lemma. Qed.
+Print Assumptions shared_lookup_private.
+
+(* the statement is not vacuous and the copy is necessary: in the variant where the leader keeps
+   the flight's result and only followers copy, the leader's caller's edit (42) reaches the
+   follower's message *)
+Theorem leader_keeping_result_would_leak :
+  let s := fold_left (l_act_leader_keeps 0) [LGo 0; LGo 0; LEdit 0 [42%N]; LGo 1; LGo 1] (l_init (mkMsg 99 [7%N]) [1%N; 2%N]) in
+  nth_error (l_waiters s) 1 = Some (2%N, G2 1) /\ nth_error (l_heap s) 1 = Some (mkMsg 2 [7%N; 42%N]).
+Proof. exact leader_keeps_leaks. Qed.
+Print Assumptions leader_keeping_result_would_leak.
+
 (* ------------------------------------------------------------------ non-vacuity *)
 (* a reachable history with two leases of one slab: the second lease's client never sees the
    first reply; the datagram in the log is the first client's *)
@@ -164,4 +209,20 @@ Proof. vm_compute. repeat split. Qed.
 Example shared_example :
   let s := l_run 0 true (l_init (mkMsg 99 [7]%N) [1; 2]%N) [0; 1; 1; 0] in
   l_waiters s = [(1%N, G2 1); (2%N, G2 2)] /\ nth_error (l_heap s) 0 = Some (mkMsg 99 [7]%N).
+Proof. vm_compute. repeat split. Qed.
+
+(* two connections on one pooled stream: the first one's write fails with a reply still staged,
+   the second one's client receives its own reply only *)
+Example pooled_example :
+  let q1 := [0; 1; 1; 0; 0; 1; 0; 0; 0; 0; 0; 0]%N in
+  let q2 := [0; 2; 1; 0; 0; 1; 0; 0; 0; 0; 0; 0]%N in
+  let sc id := (id, mkScript [] false [HWrite [0; id; 9]%N] true) in
+  conn_seq 64 64 (s_init [] [])
+    [mkConnio false (frame q1) [] [sc 1%N] [Some 2] []; mkConnio true (frame q2) [] [sc 2%N] [] []]
+  = [[[0; 3]%N]; [[0; 3; 0; 2; 9]%N]].
+Proof. vm_compute. reflexivity. Qed.
+
+Example shared_edit_example :
+  let s := l_run2 0 true (l_init (mkMsg 99 [7]%N) [1; 2]%N) [LGo 0; LGo 0; LEdit 0 [42]%N; LGo 1; LGo 1; LEdit 1 [43]%N] in
+  nth_error (l_heap s) 1 = Some (mkMsg 1 [7; 42]%N) /\ nth_error (l_heap s) 2 = Some (mkMsg 2 [7; 43]%N).
 Proof. vm_compute. repeat split. Qed.
